@@ -71,8 +71,9 @@ def run(repo: Repo, chk: Check):
     chk.guarded(r09e, repo, chk, "R01.l")
     from .c06 import r06h
     chk.guarded(r06h, repo, chk, "R01.k")
-    from .c06 import r06g
+    from .c06 import r06g, r06a
     chk.guarded(r06g, repo, chk, "R01.n")
+    chk.guarded(r06a, repo, chk, "R01.n")
     chk.rule("R01.o", "a stack kept by a pass while it compiles a construct is popped on every path to the handler's return, so break / continue and "
                       "nested constructs read their own entry (shared with R05.g)", floor=1)
     from .shared import rule_stack_balance
@@ -448,6 +449,22 @@ def r01d(repo, chk):
                 n += 1
                 atoms = guard_atoms(cfg, ids[0])
                 reason = _prune_reason(cfg, rd, atoms, ids[0], fn)
+                if reason == "name never read":
+                    # that reason covers the name node itself, not the statement around it: the value may call user code
+                    tgt = next(t for t in st.targets if isinstance(t, ast.Attribute) and t.attr == "is_used")
+                    recv = tgt.value.value if isinstance(tgt.value, ast.Attribute) and tgt.value.attr == "_ndata" else tgt.value
+                    subject = _read_test_subject(cfg, rd, atoms, ids[0])
+                    if subject is not None and norm(recv) != subject:
+                        ro = recv
+                        if isinstance(recv, ast.Name):
+                            ds_ = rd.at(ids[0], recv.id)
+                            if len(ds_) == 1 and ds_[0].kind == "assign" and ds_[0].value is not None:
+                                ro = ds_[0].value
+                        chk.bad("R01.d", f"{mn}:{fn.qual}:{norm(st)[:80]}",
+                                f"{norm(st)} marks {norm(ro)} unused because the name {subject} is never read: that justifies dropping the name, not the node around it; "
+                                f"a statement 'spare = pulse(d0.Setting) + 1' loses the call of pulse() and everything it does", {"reason": reason, "pruned": norm(ro)},
+                                f"{m.path}:{st.lineno} in {fn.qual}")
+                        continue
                 chk.judge("R01.d", f"{mn}:{fn.qual}:{norm(st)[:80]}", reason is not None,
                           f"{norm(st)} can mark code unused, but no guard proves a reason (constant test / name never read); guards: "
                           + " & ".join(norm(t) + ("" if p else "=False") for t, p in atoms),
@@ -475,6 +492,20 @@ def _is_const_reason(t, p):
     if p and isinstance(t, ast.Compare) and len(t.ops) == 1 and isinstance(t.ops[0], ast.Eq) and norm(t.left).endswith(".is_read") \
             and isinstance(t.comparators[0], ast.Constant) and t.comparators[0].value == 0:
         return "name never read"
+    return None
+
+
+def _read_test_subject(cfg, rd, atoms, nid):
+    """the node whose symbol the test '<sym>.is_read == 0' is about: get_sym_data(<node>) -> text of <node>"""
+    for t, p in atoms:
+        if p and isinstance(t, ast.Compare) and norm(t.left).endswith(".is_read") and isinstance(t.left, ast.Attribute):
+            sym = t.left.value
+            if isinstance(sym, ast.Name):
+                ds = rd.at(nid_of(cfg, t, nid), sym.id)
+                if len(ds) == 1 and ds[0].kind == "assign" and isinstance(ds[0].value, ast.Call) and norm(ds[0].value.func).endswith("get_sym_data") and ds[0].value.args:
+                    return norm(ds[0].value.args[0])
+            if isinstance(sym, ast.Call) and norm(sym.func).endswith("get_sym_data") and sym.args:
+                return norm(sym.args[0])
     return None
 
 
